@@ -435,7 +435,7 @@ def py_list(ctx, it=()):
 
 def py_range(ctx, *a):
     if any(isinstance(x, Sym) for x in a):
-        from .seq import SRange
+        from .nparr import SRange
         return SRange.make(ctx, *a)
     try:
         return range(*a)
